@@ -1,17 +1,28 @@
 """C02 — an accepted configuration yields exactly the typed value tree the schema defines"""
-from .. import cfggen, cfgrun, cfgstream, core
+import re
+
+from .. import cfggen, cfgrun, cfgstream, core, schemafam as F
 
 RULE = ("same schema family restricted to datatypes with a reference conversion in the model; mostly valid texts "
         "(0..1 faults), keys whose datatype converts the empty string also given WITH the empty value (alone on their line "
-        "or through a reference to an empty definition); the whole value tree is compared attribute by attribute (names, order, values, types, section "
+        "or through a reference to an empty definition); attribute names GIVEN by the schema respelled as arbitrary identifiers (leading / "
+        "trailing underscores, upper and mixed case) and given to fixed-name items that state none; a directed stream of schemas "
+        "whose keys, multikeys, sections and multisections are given attribute names a value object might use for its own fields "
+        "('_name', '_type', '_attributes', ...); the whole value tree is compared attribute by attribute (names, order, values, types, section "
         "names and types); non-trivial = accepted with at least one key or section; distinct by (schema, text)")
 
 
 def run(ctx):
     obligations, discharged, names = core.standard_prelude(ctx, ["ZCV.Props.C02"])
     n_s, n_t = (1500, 50) if ctx.thorough() else (120, 25)
-    cases = cfgstream.gen_cases(ctx, n_s, n_t, nfaults=(0, 0, 0, 1), pempty=0.15)
+    cases = cfgstream.gen_cases(ctx, n_s, n_t, nfaults=(0, 0, 0, 1), pempty=0.15, schema_hook=cfggen.respell_attributes)
     cfgstream.evaluate(ctx, cases, with_spec=True)
+    seen = set()
+    for c in cases:
+        if id(c.sd) not in seen:
+            seen.add(id(c.sd))
+            for k in {_spelling(a) for a in cfggen.given_attributes(c.elab)}:
+                ctx.count("schema-with-attribute-name:" + k)
     bad = []
     bad_spec = []
     for c in cases:
@@ -28,6 +39,8 @@ def run(ctx):
             continue
         if c.model[0] != "ok":
             continue      # accept/reject is C01's observable
+        for k in {_spelling(a) for a in _listed(c.model[1])}:
+            ctx.count("accepted-value-tree-with-attribute-name:" + k)
         if not cfgrun.match_val(c.model[1], c.cfg):
             bad.append(c)
             ctx.disagree("value", c.replay(), cfgrun.describe(c.cfg), c.model[1])
@@ -50,6 +63,7 @@ def run(ctx):
         ok = [c for c in cases if c.out[0] == "ok"]
         for c in ok[:2]:
             ctx.sample({"lines": c.lines, "value": cfgrun.describe(c.cfg)})
+    _own_field_names(ctx)
     _prefixed_datatypes(ctx)
     return core.finish(ctx, obligations, discharged, names, RULE,
                        "lake build ZCV.Props.C02 && lake env lean ZCV/Audit/C02.lean",
@@ -59,6 +73,120 @@ def run(ctx):
 def _off_spec(c):
     """accepted by the loader and by `conforms`, with a value tree that is not `denote`'s"""
     return (c.out[0] == "ok" and c.spec is not None and c.spec[0] == "accept" and not cfgrun.match_val(c.spec[1], c.cfg))
+
+
+def _spelling(a):
+    """the way an attribute name is written, for the evidence"""
+    if a.startswith("_"):
+        return "underscore-first"
+    if a.endswith("_"):
+        return "underscore-last"
+    return "lower-case" if a == a.lower() else "upper-or-mixed-case"
+
+
+def _listed(m):
+    """the attribute names the section values of an expected value tree list (all levels)"""
+    if isinstance(m, list) and m:
+        if m[0] == "sect":
+            for a, x in m[3]:
+                yield a
+                yield from _listed(x)
+        elif m[0] in ("list", "wrap", "tup"):
+            for x in m[1:]:
+                yield from _listed(x)
+
+
+# attribute names an application may well give and a value object may well use for fields of its own
+FIELD_NAMES = ["_name", "_matcher", "_attributes", "_type", "_value", "_values", "_keys", "_info", "_schema", "_Name", "_name_",
+               "__name", "name", "matcher", "attributes", "type"]
+ITEM_KINDS = ["key", "multikey", "section", "multisection"]
+
+
+def _field_schema(kind, nm):
+    def item(keyname):
+        if kind == "key":
+            return F.KeyD(keyname, "string", False, False, "dflt", nm)
+        if kind == "multikey":
+            return F.KeyD(keyname, "string", True, False, ["d1", "d2"], nm)
+        return F.SectD("inner", "*", kind == "multisection", False, nm)
+    inner = F.TypeD("inner", [F.KeyD("v", "integer", False, False, "1")])
+    pt = F.TypeD("pt", [F.KeyD("size", "integer", False, False, "4"), item("label")])
+    return F.SchemaD([F.KeyD("title", "string", False, False, "untitled"), item("label"),
+                      F.SectD("pt", "+", True, False, "pts")], [inner, pt])
+
+
+def _field_texts(kind):
+    if kind in ("key", "multikey"):
+        given = ["label Top"] + (["label Top2"] if kind == "multikey" else [])
+        return [given + ["<pt A>", "  size 5"] + ["  " + l for l in given] + ["</pt>", "<pt b/>"], ["title t", "<pt A/>"]]
+    one = ["<inner Foo>", "  v 3", "</inner>"] + (["<inner/>"] if kind == "multisection" else [])
+    return [one + ["<pt A>"] + ["  " + l for l in one] + ["</pt>", "<pt b/>"], ["title t", "<pt A/>"]]
+
+
+def _match_but(m, v, nm):
+    """the value tree is the expected one everywhere except (possibly) in what the attribute nm holds"""
+    if m != "none" and m[0] == "list":
+        return isinstance(v, list) and len(v) == len(m) - 1 and all(_match_but(a, b, nm) for a, b in zip(m[1:], v))
+    if m != "none" and m[0] == "sect":
+        if not hasattr(v, "getSectionAttributes"):
+            return False
+        if (v.getSectionType() or "") != m[1] or v.getSectionName() != (None if m[2] == "none" else m[2]):
+            return False
+        if list(v.getSectionAttributes()) != [a for a, _ in m[3]]:
+            return False
+        return all(a == nm or _match_but(x, getattr(v, a), nm) for a, x in m[3])
+    return cfgrun.match_val(m, v)
+
+
+def _own_field_names(ctx):
+    """the attributes a type declares are the schema's to name: a key, multikey, section or multisection whose GIVEN attribute
+    name is one a value object might use for a field of its own ('_name', '_type', '_attributes', 'name', ...) is exposed like
+    any other - listed, holding the declared value - in the schema's own value and in nested ones, given in the text or
+    defaulted.  Same oracle as the main stream (`denote`, and the loader model).  A schema the schema loader refuses is outside
+    the quantifier (counted)."""
+    cases = []
+    for nm in FIELD_NAMES:
+        for kind in ITEM_KINDS:
+            sd = _field_schema(kind, nm)
+            try:
+                real = F.load_real(sd)
+            except Exception as e:
+                ctx.count("field-named-attribute:schema-refused:" + type(e).__name__)
+                continue
+            elab = F.elaborate(sd)
+            cfgstream.check_digest(ctx, sd, real, elab)
+            for lines in _field_texts(kind):
+                c = cfgstream.Case()
+                c.sd, c.real, c.elab, c.hnames = sd, real, elab, []
+                c.lines, c.meta = lines, {"attribute": nm, "kind": kind}
+                cases.append(c)
+    cfgstream.evaluate(ctx, cases, with_spec=True)
+    for c in cases:
+        nm, kind = c.meta["attribute"], c.meta["kind"]
+        ctx.count("field-named-attribute:" + kind)
+        expected = c.spec[1] if (c.spec is not None and c.spec[0] == "accept") else c.model[1] if (c.model and c.model[0] == "ok") else None
+        if expected is None:
+            ctx.disagree("field-named-attribute", c.replay(), c.out, [c.spec, c.model])      # these texts conform
+            continue
+        try:
+            good = c.out[0] == "ok" and cfgrun.match_val(expected, c.cfg)
+            only_there = not good and c.out[0] == "ok" and _match_but(expected, c.cfg, nm)
+        except Exception as e:      # the value object cannot even be inspected
+            good, only_there = False, False
+            ctx.count("field-named-attribute:inspection-raised:" + type(e).__name__)
+        if good:
+            ctx.nontriv(("field-named-attribute", nm, kind, tuple(c.lines)))
+            continue
+        # (known finding C02-own-field-names: tight class = the three names the pinned SectionValue keeps its own state under,
+        #  everything exposed as declared except the value found under that name)
+        known = only_there and re.match(r"_(name|matcher|attributes)\Z", nm)
+        try:
+            impl = cfgrun.describe(c.cfg) if c.out[0] == "ok" else c.out
+        except Exception as e:
+            impl = "describe raised " + type(e).__name__
+        ctx.violate("a %s given the attribute name %r: the section value does not expose it as declared (listed, holding the declared value)" % (kind, nm),
+                    dict(c.replay(), attribute=nm, item=kind, impl=impl, expected=expected),
+                    signature="C02:own-field-name:declared-value-replaced" if known else "C02:value-tree")
 
 
 def _prefixed_datatypes(ctx):
